@@ -59,9 +59,15 @@ func goroutinesOf(s sigSpec, uniq int, firstID int) []*stack.Goroutine {
 			if err := c.Func.Init(pkg + "." + f.Fn); err != nil {
 				panic("HARNESS: " + err.Error())
 			}
-			c.RemoteSrcPath = fmt.Sprintf("/u%d/%s", uniq, f.Dir)
-			c.DirSrc = f.Dir
-			c.SrcName = f.Dir[len(f.Dir)-4:]
+			if f.Dir == "" {
+				// a short source path: no directory element, DirSrc stays empty
+				c.RemoteSrcPath = fmt.Sprintf("/u%dx.go", uniq)
+				c.SrcName = c.RemoteSrcPath[1:]
+			} else {
+				c.RemoteSrcPath = fmt.Sprintf("/u%d/%s", uniq, f.Dir)
+				c.DirSrc = f.Dir
+				c.SrcName = f.Dir[len(f.Dir)-4:]
+			}
 			c.Line = f.Line
 			c.ImportPath = c.Func.ImportPath
 			c.Location = f.Loc
@@ -127,6 +133,21 @@ func c13Universe(size int) []sigSpec {
 		mod(func(s *sigSpec) { s.Members = 2 })
 		mod(func(s *sigSpec) { s.Members = 3 })
 		mod(func(s *sigSpec) {}) // an exact tie with the plain entry
+	}
+	// cross products on a single standard-library frame: lock x state x line, and
+	// DirSrc (empty for short source paths) x line - orders that only break when two
+	// attributes interact (both locked; empty DirSrc against two non-empty ones).
+	for _, locked := range []bool{false, true} {
+		for _, state := range []string{"chan send", "select"} {
+			for _, line := range []int{9, 10} {
+				add(sigSpec{Frames: []frameSpec{{Loc: stack.Stdlib, Fn: "Fn", Dir: "d/x.go", Line: line}}, Locked: locked, State: state})
+			}
+		}
+	}
+	for _, dir := range []string{"", "a/x.go", "b/x.go"} {
+		for _, line := range []int{1, 2, 3} {
+			add(sigSpec{Frames: []frameSpec{{Loc: stack.GOPATH, Fn: "Zz", Dir: dir, Line: line}}})
+		}
 	}
 	if size > len(u) {
 		// thorough: more depth-3 and attribute combinations
